@@ -65,6 +65,34 @@ def native_untitled(binary):
         s.close()
 
 
+HOSTILE_URIS = ['file://{root}/src/%FF.gleam', 'file://{root}/src/%C3%28.gleam', 'file://{root}/src/a%20b.gleam', 'file://{root}/src/', 'file:///', 'file://{root}/src/notes.txt',
+                'file://{root}/src/../../outside.gleam', 'http://example.org/x.gleam', 'untitled:/abs/x.gleam', 'file://{root}/src/sub/deep/%E2%82%AC.gleam', 'file://{root}/gleam.toml', 'file://{root}/src/a.b.gleam']
+
+
+def native_hostile_uris(binary):
+    """didOpen / didChange / hover / didClose on documents with odd URIs (a path that is not UTF-8, a directory, the root, another scheme, ...);
+    after each of them the server must be alive and answer a hover on an ordinary document.  -> list of problems"""
+    probs = []
+    for tmpl in HOSTILE_URIS:
+        s = lsp_replay.Session(binary, timeout=10.0)
+        try:
+            main = s.uri()
+            s.notify('textDocument/didOpen', {'textDocument': {'uri': main, 'languageId': 'gleam', 'version': 1, 'text': 'pub fn main() { 1 }\n'}})
+            u = tmpl.format(root=s.root)
+            s.notify('textDocument/didOpen', {'textDocument': {'uri': u, 'languageId': 'gleam', 'version': 1, 'text': 'pub fn odd() { 1 }\n'}})
+            h0 = s.request('textDocument/hover', {'textDocument': {'uri': u}, 'position': {'line': 0, 'character': 8}})
+            s.notify('textDocument/didChange', {'textDocument': {'uri': u, 'version': 2}, 'contentChanges': [{'text': 'pub fn odd() { 2 }\n'}]})
+            s.notify('textDocument/didClose', {'textDocument': {'uri': u}})
+            h = s.request('textDocument/hover', {'textDocument': {'uri': main}, 'position': {'line': 0, 'character': 8}})
+            answered = lambda r: isinstance(r, dict) and ('result' in r or 'error' in r)
+            if not answered(h0) or not answered(h) or not s.alive():
+                probs.append('didOpen / hover / didChange / didClose of %s: %s' % (tmpl.replace('{root}', '<project>'),
+                             'the server died (%s)' % (h.get('dead') if isinstance(h, dict) and 'dead' in h else h0) if not s.alive() or 'dead' in str(h) else 'a hover is not answered (%s / %s)' % (str(h0)[:80], str(h)[:80])))
+        finally:
+            s.close()
+    return probs
+
+
 def nonfile_part(chk, tier, jobs):
     from mirsym.world import World
     from . import ucserver
@@ -85,12 +113,23 @@ def nonfile_part(chk, tier, jobs):
         else:
             chk.validated += 1
             chk.log('non-file URIs: the real server survives didOpen / hover / didChange on untitled:Untitled-1 and keeps answering')
+        hp = native_hostile_uris(lsp_replay.build_binary())
+        for p_ in hp[:3]:
+            chk.violation('didopen:hostile-uri', 'fixture', 'real server: ' + p_[:600], {'kind': 'hostile-uri', 'problem': p_}, confirmed=True)
+        if not hp:
+            chk.validated += len(HOSTILE_URIS)
+            chk.log('hostile URIs: the real server survives didOpen / hover / didChange / didClose on %d odd URIs and keeps answering' % len(HOSTILE_URIS))
     finally:
         ucserver.WGI.cleanup()
 
 
 def replay(path):
     d = json.load(open(path))
+    if d.get('cex', {}).get('kind') == 'hostile-uri':
+        from mirsym import lsp_replay as _l2
+        hp = native_hostile_uris(_l2.build_binary())
+        print(json.dumps(hp, indent=1))
+        return 1 if hp else 0
     if d.get('site') == 'didopen:non-file-uri':
         from mirsym import lsp_replay as _l
         print(json.dumps(native_untitled(_l.build_binary()), indent=1))
